@@ -85,6 +85,23 @@ def generate(tier, seed):
                 steps += [o] + block
             cases.append(case("eng", sp, adapter_M(lines), "-", steps))
             dist["mixed_arity"] += 1
+    # over-long g rules: a rule under the binary g may carry extra "custom data" columns; when that column happens to be a
+    # domain used under the ternary g2, a rebuild of the links (load_policy, build_role_links) must still file the g link in
+    # the DEFAULT domain - it must never surface as a g2 membership in that domain
+    dist["overlong_g_rule"] = 0
+    lines2 = lines + [["g", "g", "z", "x", "d1"]]
+    extra = [A("g", "g", ["y", "x", "d1"]), A("g", "g", ["z", "y", "d1"]), R("g", "g", ["z", "x", "d1"]), "BR", "LD",
+             RF("g", "g2", 0, ["x"]), A("g", "g2", ["z", "x", "d1"]), R("g", "g2", ["x", "y", "d1"])]
+    for k in (1, 2, 3):
+        hs = list(itertools.product(extra, repeat=k))
+        if k == 3:
+            hs = rnd.sample(hs, 60 if tier == "quick" else 400)
+        for h in hs:
+            steps = list(block)
+            for o in h:
+                steps += [o] + block
+            cases.append(case("eng", sp, adapter_M(lines2), "-", steps))
+            dist["overlong_g_rule"] += 1
     return {
         "cases": cases,
         "exhaustive": False,
